@@ -51,6 +51,7 @@ type Waiter struct {
 	Held  bool   // driver bookkeeping: deliberately kept parked
 	Since int64  // driver bookkeeping
 	Tag   string // driver bookkeeping
+	MID   uint32 // id of the wanted lock (assigned at first use within the run)
 }
 
 // Scheduler owns all lock acquisitions of one simulated run.
@@ -62,6 +63,7 @@ type Scheduler struct {
 	SigHits map[string]int
 	stopped bool
 	never   chan struct{}
+	nextMID uint32
 }
 
 // NewScheduler must be called inside the bubble of the run.
@@ -171,6 +173,19 @@ func (s *Scheduler) park(w *Waiter) {
 	w.Sig = signature()
 	w.ch = make(chan struct{})
 	gmu.Lock()
+	if w.m != nil {
+		if w.m.run != s {
+			s.nextMID++
+			w.m.id, w.m.run = s.nextMID, s
+		}
+		w.MID = w.m.id
+	} else {
+		if w.rw.run != s {
+			s.nextMID++
+			w.rw.id, w.rw.run = s.nextMID, s
+		}
+		w.MID = w.rw.id
+	}
 	s.seq++
 	w.Seq = s.seq
 	s.parked = append(s.parked, w)
@@ -184,6 +199,8 @@ func (s *Scheduler) park(w *Waiter) {
 
 type Mutex struct {
 	held bool
+	id   uint32
+	run  *Scheduler
 }
 
 func (m *Mutex) Lock() {
@@ -227,8 +244,10 @@ func (m *Mutex) Unlock() {
 // ---- RWMutex ----
 
 type RWMutex struct {
-	w bool
-	r int
+	w   bool
+	r   int
+	id  uint32
+	run *Scheduler
 }
 
 func (rw *RWMutex) Lock() {
